@@ -44,13 +44,16 @@ def targets():
                 if os.path.exists(mp):
                     meta = json.load(open(mp))
                 out.append({'id': 'S-' + d, 'patch': p, 'property': meta.get('property'),
-                            'what': meta.get('summary'), 'kind': 'seeded-by-subagent'})
+                            'what': meta.get('summary'), 'kind': 'seeded-by-subagent',
+                            'assessment': meta.get('assessment')})
     return out
 
 
 def one(t, runs, use_examples):
     scratch = tempfile.mkdtemp(prefix='fxsim_self_')
     res = {'id': t['id'], 'kind': t['kind'], 'what': t['what'], 'declared_property': t['property'], 'checks': {}}
+    if t.get('assessment'):
+        res['assessment'] = t['assessment']      # why a miss is expected (outside what the property states)
     try:
         shutil.copytree(os.path.join(REPO, 'fxpmath'), os.path.join(scratch, 'fxpmath'))
         rc, out = sh(['patch', '-p1', '-s', '-d', scratch, '-i', t['patch']])
